@@ -253,6 +253,9 @@ func (k *c38Kit) singleMutations(archives []*c38Archive) {
 				if off&0xff == 0 && k.timeUp() {
 					break
 				}
+				if !k.thorough && len(orig) > 4096 && !(off < 2048 || off >= len(orig)-512 || off%17 == 0) {
+					continue // quick: 64 KiB manifest.json: head (fields + first Slot references), tail, stride 17
+				}
 				for mi, nb := range []byte{orig[off] ^ 1, 0xFF} {
 					if nb == orig[off] {
 						continue
@@ -273,6 +276,19 @@ func (k *c38Kit) singleMutations(archives []*c38Archive) {
 			orig := a.body(o.key)
 			focus := o.slot < 0 || a.focus[o.slot]
 			full := a.byteScope(o, k.thorough)
+			if !full && !focus && !k.thorough {
+				// quick, objects outside the byte scope (a case costs a verification of all preceding Slots):
+				// archive "min": every object deleted, every 16th Slot also cut/extended; other archives: every 64th Slot
+				if a.shape.name != "min" && o.slot%64 != 63 {
+					continue
+				}
+				k.mustFail(e, sec, a, "deleted", o.kind, n+"|deleted|"+o.key, []c38Edit{{key: o.key, del: true}})
+				if o.slot%16 == 15 {
+					k.mustFail(e, sec, a, "truncated", o.kind, fmt.Sprintf("%s|truncated|%s|%d", n, o.key, len(orig)-1), []c38Edit{{key: o.key, body: orig[: len(orig)-1 : len(orig)-1]}})
+					k.mustFail(e, sec, a, "extended", o.kind, fmt.Sprintf("%s|extended|%s|00", n, o.key), []c38Edit{{key: o.key, body: append(c38Clone(orig), 0)}})
+				}
+				continue
+			}
 			k.mustFail(e, sec, a, "deleted", o.kind, n+"|deleted|"+o.key, []c38Edit{{key: o.key, del: true}})
 			var lens []int
 			switch {
@@ -286,22 +302,16 @@ func (k *c38Kit) singleMutations(archives []*c38Archive) {
 						lens = append(lens, l)
 					}
 				}
-			case k.thorough:
-				lens = []int{0, 1, len(orig) / 2, len(orig) - 1}
 			default:
-				lens = []int{len(orig) - 1}
+				lens = []int{0, 1, len(orig) / 2, len(orig) - 1}
 			}
 			for _, l := range lens {
 				k.mustFail(e, sec, a, "truncated", o.kind, fmt.Sprintf("%s|truncated|%s|%d", n, o.key, l), []c38Edit{{key: o.key, body: orig[:l:l]}})
 			}
-			exts := []byte{0x00, '\n', ' ', 0xFF, '}'}
-			if !focus && !k.thorough {
-				exts = exts[:1]
-			}
-			for _, x := range exts {
+			for _, x := range []byte{0x00, '\n', ' ', 0xFF, '}'} {
 				k.mustFail(e, sec, a, "extended", o.kind, fmt.Sprintf("%s|extended|%s|%02x", n, o.key, x), []c38Edit{{key: o.key, body: append(c38Clone(orig), x)}})
 			}
-			if focus || k.thorough {
+			{
 				k.mustFail(e, sec, a, "duplicated", o.kind, n+"|doubled|"+o.key, []c38Edit{{key: o.key, body: append(c38Clone(orig), orig...)}})
 			}
 			if focus {
@@ -448,8 +458,8 @@ func (k *c38Kit) singleMutations(archives []*c38Archive) {
 	k.r.Count("single_mutation_byte_objects", nObjs)
 	e.Done(!k.capped, map[string]any{
 		"archives":        len(archives),
-		"byte_mutations":  "every byte x {bit0 flipped, 0xFF} of: COMPLETE and every Slot manifest and chunk of the focus Slots of every archive, manifest.json of the 'rich' archive (thorough: manifest.json of every archive, more focus Slots incl. the last one, every 16th Slot)",
-		"object_level":    "every object of all 256 Slots: deleted, last byte cut, +1 byte 00 (thorough: cut to {0,1,half,len-1}, +1 byte {00,0a,20,ff,7d}, doubled); objects in byte scope: every truncation length (quick: stride 61 + last 256 lengths for objects > 4 KiB), +1 byte x5, doubled, space-prefixed",
+		"byte_mutations":  "every byte x {bit0 flipped, 0xFF} of: COMPLETE and every Slot manifest and chunk of the focus Slots of every archive; manifest.json (64 KiB) of the 'rich' archive at offsets <2048, the last 512 and every 17th (thorough: every byte of manifest.json of every archive, more focus Slots incl. the last one, every 16th Slot)",
+		"object_level":    "quick: archive 'min': every object of all 256 Slots deleted, every 16th Slot also last byte cut / +1 byte 00; other archives every 64th Slot; thorough: every object of every archive deleted, cut to {0,1,half,len-1}, +1 byte {00,0a,20,ff,7d}, doubled; objects in byte scope: every truncation length (quick: stride 61 + last 256 lengths for objects > 4 KiB), +1 byte x5, doubled, space-prefixed",
 		"pairs":           "all ordered pairs of focus objects + neighbouring Slots' manifests/first chunks (quick: every 16th Slot): bytes stored under the other key, and swapped",
 		"order":           "every non-identity permutation of a focus Slot's chunk references (manifest re-encoded) and of its chunk objects",
 		"marker":          "manifest_bytes +-1/0, version 0/2, format variants, every digest nibble, markers and manifests of the other archives (incl. one with the same backup id), CORRUPT marker present",
@@ -809,6 +819,14 @@ func (k *c38Kit) decodeCase(e *ev.Enum, d *c38Decoder, class, name string, in []
 	switch {
 	case pan != nil:
 		k.violate("C38:decoder-panic:"+d.name, sec, key, "%s panicked on %d bytes: %v", d.name, len(in), pan)
+	case err == nil && class == "oversized-string" && d.name == "LoadMessageChunkManifest" && strings.Contains(name, ".key "):
+		// a message-index chunk key has no length rule beyond ValidateRepositoryKey and the
+		// 64 MiB object bound: a longer key is a different canonical manifest (allocation still checked)
+		if alloc > ceiling {
+			k.violate("C38:decoder-allocation:"+d.name, sec, key, "%s allocated %d bytes on a %d-byte input (ceiling %d)", d.name, alloc, len(in), ceiling)
+		}
+		e.Case(key, true, class+"/accepted-free-form-field")
+		return
 	case err == nil:
 		k.violate("C38:decoder-accepted:"+class+":"+d.name, sec, key, "%s accepted a %s variant of a canonical manifest (%d bytes)", d.name, class, len(in))
 	case alloc > ceiling:
@@ -824,16 +842,22 @@ func (k *c38Kit) decoders(archives []*c38Archive) {
 	manifestBody := a.body(a.root + "manifest.json")
 	markerBody := a.body(a.root + "COMPLETE")
 	repoBody := a.body(backup.RepositoryMarkerKey)
-	slotBody := a.body(a.root + a.published.Slots[255].ManifestKey)
+	best := 0
+	for s := range a.focus {
+		if len(a.slotMan[s].Chunks) > len(a.slotMan[best].Chunks) || (len(a.slotMan[s].Chunks) == len(a.slotMan[best].Chunks) && s < best) {
+			best = s
+		}
+	}
+	slotBody := a.body(a.root + a.published.Slots[best].ManifestKey)
 	var idxBody []byte
 	{
 		var refs []backup.ChunkReference
-		for _, c := range a.slotMan[255].Chunks {
+		for _, c := range a.slotMan[best].Chunks {
 			if c.Kind == backup.ChunkKindMessages {
 				refs = append(refs, c)
 			}
 		}
-		im, err := backup.NewMessageChunkManifest(255, refs)
+		im, err := backup.NewMessageChunkManifest(uint16(best), refs)
 		if err == nil {
 			idxBody, err = backup.MarshalMessageChunkManifest(im)
 		}
